@@ -1,0 +1,3 @@
+// Package verifhook provides observation points for external verification
+// tooling. Without the "verif" build tag every function is an empty stub.
+package verifhook
